@@ -326,6 +326,12 @@ func b01(b bool) string {
 }
 
 func main() {
+	if len(os.Args) >= 5 && os.Args[1] == "caller" {
+		os.Exit(caller(os.Args[2], os.Args[3], os.Args[4]))
+	}
+	if len(os.Args) >= 3 && os.Args[1] == "corpus" {
+		os.Exit(corpus(os.Args[2]))
+	}
 	if len(os.Args) < 2 || (os.Args[1] != "pairs" && os.Args[1] != "show") {
 		fmt.Fprintln(os.Stderr, "usage: gvh_c12 pairs|show  < requests.jsonl")
 		os.Exit(2)
